@@ -219,6 +219,11 @@ fn check_year_month(r: &mut Rng) -> Result<(), String> {
     Ok(())
 }
 
+/// Entry for the fuzz target.
+pub fn check_history_pub(hist: &[NaiveDate]) -> Result<(), String> {
+    check_history(hist, &[], 1)
+}
+
 fn case_json(hist: &[NaiveDate], probes: &[NaiveDate]) -> Value {
     json!({"history": hist.iter().map(|x| x.to_string()).collect::<Vec<_>>(), "probes": probes.iter().map(|x| x.to_string()).collect::<Vec<_>>()})
 }
@@ -275,7 +280,7 @@ pub fn run(args: &Args, rep: &mut Report) {
             }
         }
     }
-    let n = if reduced { args.cases(40, 300) } else { args.cases(60_000, 3_000_000) };
+    let n = if reduced { args.cases(40, 300) } else { args.cases(600_000, 12_000_000) };
     for k in 0..n {
         let mut r = Rng::new(args.seed, args.worker, k);
         let base = *r.pick(&[2000, 2024, 1900, 9999, 1, -1, 0, -400, 2100]);
